@@ -16,7 +16,7 @@ def run(chk, replay=None):
     hosts = ['h0.ex.net:27017', 'h1.ex.net:27017']
     cluster_body = json.dumps({'connectionStrings': {'standard': atlaslib.conn_string(hosts)}})
     okh = [{'status': 200, 'body': base64.b64encode(good).decode(), 'cut': -1} for _ in hosts]
-    chk.rule = ("ways of supplying the key pair {flags, environment, mixed} x server behaviours {digest challenge, no challenge, Basic challenge, 401 after the challenge, 403/404/500 with bodies "
+    chk.rule = ("ways of supplying the key pair {flags, environment, mixed} x server behaviours {digest challenge, no challenge, Basic challenge, 401 after the challenge (plain, or with a fresh challenge: stale nonce / other realm / qop / algorithm), 403/404/500 with bodies "
                 "echoing the request headers, cluster lookup failing, connection reset, body cut}; every artefact (requests incl. all headers, stdout, stderr, output files, temp files) "
                 "searched for the planted private key verbatim, URL-encoded, base64 (alone and as user:password), base64url and hex; non-trivial = distinct (supply, behaviour) pairs")
     behaviours = {
@@ -34,6 +34,11 @@ def run(chk, replay=None):
         'host_bearer_after_digest': {'challenge': 'digest', 'host_challenge': 'bearer', 'hosts': okh},
         'cut': {'challenge': 'digest', 'hosts': [okh[0], {'status': 200, 'body': base64.b64encode(good).decode(), 'cut': 9}]},
     }
+    # the server refuses the AUTHENTICATED request with a fresh challenge (stale nonce, other realm / qop / algorithm), on the log downloads or on every endpoint
+    for ac in ('digest-stale', 'digest-renonce', 'digest-realm2', 'digest-authint', 'digest-noqop', 'digest-md5sess', 'digest-sha256'):
+        behaviours['authed_%s_logs' % ac] = {'challenge': 'digest', 'authed_challenge': ac, 'authed_scope': 'logs', 'echo_headers': ac == 'digest-realm2', 'hosts': okh}
+    behaviours['authed_digest-stale_all'] = {'challenge': 'digest', 'authed_challenge': 'digest-stale', 'authed_scope': 'all', 'hosts': okh}
+    behaviours['authed_digest-noqop_all'] = {'challenge': 'digest', 'authed_challenge': 'digest-noqop', 'authed_scope': 'all', 'echo_headers': True, 'hosts': okh}
     secret_forms = forms(atlaslib.PRIV)
     for bname, b in behaviours.items():
         for supply in ('flags', 'env', 'mixed'):
